@@ -3,7 +3,7 @@ CONSTANTS
   Conns = {c1, c2}
   MaxReq = 2
   NoChk2 = FALSE
-  DecBeforeClose = FALSE
-INVARIANTS NoForwardAfterShutdown NilOnlyWhenDrained ErrOnlyIfCtx CountSane
+  DecBeforeClose = FALSE  NoChk3 = FALSE
+INVARIANTS NoForwardAfterShutdown NilOnlyWhenDrained ErrOnlyIfCtx ClosedAfterInflight CountSane
 PROPERTIES ForwardedCompletes AfterCloseAllClosed CountReturnsToZero
 CHECK_DEADLOCK FALSE
